@@ -1,13 +1,16 @@
 // C06 harness: Circuit::placeGlobal (with a recording callback), GlobalPlacer internals, DensityGrid::fromIspdCircuit
 // and HierarchicalDensityPlacement::spreadCoordX/Y from /repo's working tree
 //   global gen gp SEED COUNT LEVEL      LEVEL 0 = quick (small circuits, efforts 1-3), 1 = thorough (larger, efforts 1-9)
+//   global gen gpc SEED COUNT           circuits with EXACT coincidences (floating groups with centred pins, nets whose pins all
+//                                       coincide, stacked twin cells, no fixed pin at all), all four net models
 //   global gen spread SEED COUNT        dyadic spreading cases (every float operation of spreadCells is exact)
 //   global gen grid SEED COUNT          margin clipping + bin limits only (no placement run)
 //   global gen spreadf SEED COUNT       NON-dyadic spreading cases ("SF", same payload as "SP"): the results are printed as
 //                                       raw IEEE-754 bit patterns and compared bit for bit with the Flocq model (coq/SpreadFloat.v)
 //   global run < cases
 // case lines
-//   "GP <rows> <cells> <nets> effort seed netModel costModel tolExp approx10 cutoff10 line lineOv diag diagOv sq sqOv uni1d nbSteps binSize10 blend100 maxSteps"
+//   "GP <rows> <cells> <nets> effort seed netModel costModel tolExp approx10 cutoff10 line lineOv diag diagOv sq sqOv uni1d nbSteps binSize10 blend100 maxSteps
+//       [rlTargetBlend100 rlQuadPenalty1000 rlCoarsening10]"   (the last three are optional: library defaults 0 1 1000)
 //   "GR <rows> <cells> binSize10 sideMargin100"
 //   "SP ncells nlx lx.. nly ly.. refX refY nbins (k cells..)*nbins demands*ncells tx4*ncells ty4*ncells"   (targets are t/4)
 // result lines: sections separated by " | ", see the printf calls; floats are printed exactly as "m e" (value m*2^e).
@@ -109,26 +112,127 @@ static TCircuit genGlobalCircuit(SplitMix &g, int level) {
   return t;
 }
 
+// the parameters of a GP case (everything RoughLegalizationParameters::check / GlobalPlacerParameters::check accepts)
+static std::string drawParams(SplitMix &g, int level, int forceNetModel = -1) {
+  int effort = level ? (int)g.uni(1, 9) : (int)g.uni(1, 3);
+  int seed = (int)g.uni(0, 1000);
+  int netModel = (int)g.uni(0, 3), costModel = (int)g.uni(0, 5);
+  if (forceNetModel >= 0) netModel = forceNetModel;
+  int tolExp = g.coin(60) ? 6 : (int)g.uni(1, 6);                      // 1e-tolExp >= 1e-6
+  int approx10 = g.coin(50) ? 20 : (int)g.uni(1, 100);                 // >= 0.1
+  int cutoff10 = g.coin(50) ? 400 : (int)g.uni(1, 1000);               // >= 0.1
+  int line = g.coin(40) ? 2 : (int)g.uni(1, 8), diag = g.coin(40) ? 2 : (int)g.uni(1, 8), sq = g.coin(40) ? (int)g.uni(1, 3) : (int)g.uni(1, 5);
+  int uni1d = g.coin(60);
+  if (line < 2 && diag < 2 && sq < 2 && !(uni1d && costModel == 0)) line = 2;   // accepted by RoughLegalizationParameters::check
+  int lineOv = line > 1 ? (int)g.uni(1, line - 1) : (int)g.uni(1, 3), diagOv = diag > 1 ? (int)g.uni(1, diag - 1) : (int)g.uni(1, 3),
+      sqOv = sq > 1 ? (int)g.uni(1, sq - 1) : (int)g.uni(1, 3);
+  int nbSteps = g.coin(70) ? 1 : (int)g.uni(0, 3);
+  int binSize10 = g.coin(50) ? 50 : (int)g.uni(10, 250);
+  int blend100 = g.coin(30) ? 99 : (g.coin(20) ? (g.coin(50) ? 0 : 100) : (int)g.uni(-50, 150));
+  int maxSteps = level ? 400 : (g.coin(50) ? 400 : (int)g.uni(1, 40));
+  // rough-legalization knobs: target blending -0.1..0.9 (default 0), quadratic penalty 0..1 (default 0.001), coarsening limit
+  // (not range-checked; default 100).  penalty.targetBlending is NOT varied: it is not a rough-legalization knob and not in the
+  // property's quantifier (0.13 together with a rough target blending of -0.1 keeps the bounds apart for all 400 steps until the
+  // growing penalty overflows binary32: observed at design time of this stream, see design/C06.md)
+  int rlBlend100 = g.coin(35) ? 0 : (g.coin(25) ? (g.coin(50) ? -10 : 89) : (int)g.uni(-10, 89));   // 0.9 > 0.9f is rejected
+  int rlQuad1000 = g.coin(50) ? 1 : (g.coin(20) ? (g.coin(50) ? 0 : 1000) : (int)g.uni(0, 1000));
+  int rlCoarse10 = g.coin(60) ? 1000 : (int)g.uni(5, 5000);
+  char b[512];
+  snprintf(b, 512, "%d %d %d %d %d %d %d %d %d %d %d %d %d %d %d %d %d %d %d %d %d", effort, seed, netModel, costModel, tolExp, approx10, cutoff10,
+           line, lineOv, diag, diagOv, sq, sqOv, uni1d, nbSteps, binSize10, blend100, maxSteps, rlBlend100, rlQuad1000, rlCoarse10);
+  return b;
+}
+
 static void genGP(SplitMix &g, long long count, int level) {
   for (long long it = 0; it < count; ++it) {
     TCircuit t = genGlobalCircuit(g, level);
-    int effort = level ? (int)g.uni(1, 9) : (int)g.uni(1, 3);
-    int seed = (int)g.uni(0, 1000);
-    int netModel = (int)g.uni(0, 3), costModel = (int)g.uni(0, 5);
-    int tolExp = g.coin(60) ? 6 : (int)g.uni(1, 6);                      // 1e-tolExp >= 1e-6
-    int approx10 = g.coin(50) ? 20 : (int)g.uni(1, 100);                 // >= 0.1
-    int cutoff10 = g.coin(50) ? 400 : (int)g.uni(1, 1000);               // >= 0.1
-    int line = g.coin(40) ? 2 : (int)g.uni(1, 8), diag = g.coin(40) ? 2 : (int)g.uni(1, 8), sq = g.coin(40) ? (int)g.uni(1, 3) : (int)g.uni(1, 5);
-    int uni1d = g.coin(60);
-    if (line < 2 && diag < 2 && sq < 2 && !(uni1d && costModel == 0)) line = 2;   // accepted by RoughLegalizationParameters::check
-    int lineOv = line > 1 ? (int)g.uni(1, line - 1) : (int)g.uni(1, 3), diagOv = diag > 1 ? (int)g.uni(1, diag - 1) : (int)g.uni(1, 3),
-        sqOv = sq > 1 ? (int)g.uni(1, sq - 1) : (int)g.uni(1, 3);
-    int nbSteps = g.coin(70) ? 1 : (int)g.uni(0, 3);
-    int binSize10 = g.coin(50) ? 50 : (int)g.uni(10, 250);
-    int blend100 = g.coin(30) ? 99 : (g.coin(20) ? (g.coin(50) ? 0 : 100) : (int)g.uni(-50, 150));
-    int maxSteps = level ? 400 : (g.coin(50) ? 400 : (int)g.uni(1, 40));
-    printf("GP %s %s %d %d %d %d %d %d %d %d %d %d %d %d %d %d %d %d %d %d\n", showRowsCells(t).c_str(), showNets(t).c_str(), effort, seed, netModel,
-           costModel, tolExp, approx10, cutoff10, line, lineOv, diag, diagOv, sq, sqOv, uni1d, nbSteps, binSize10, blend100, maxSteps);
+    printf("GP %s %s %s\n", showRowsCells(t).c_str(), showNets(t).c_str(), drawParams(g, level).c_str());
+  }
+}
+
+// circuits with EXACT coincidences: the solver's linearisations divide by pin distances, so that nets whose pins all sit at
+// bit-for-bit the same position, cells connected only to each other (left at exactly 0.0 by the initial star solve: zero
+// right-hand side, zero initial guess) and stacked twin cells exercise the epsilon floors of every net model.
+// All sizes are even and the pins of the special structures sit at the cell centres (offset - size/2 == 0 exactly).
+static void genGPC(SplitMix &g, long long count) {
+  for (long long it = 0; it < count; ++it) {
+    TCircuit t;
+    long long rh = 2 * g.uni(1, 6);
+    int nrows = (int)g.uni(2, 8);
+    long long x0 = g.uni(-200, 300), y0 = g.uni(-200, 300), W = rh * g.uni(6, 24);
+    for (int i = 0; i < nrows; ++i) t.rows.push_back({x0, x0 + W, y0 + i * rh, y0 + (i + 1) * rh, (i % 2 == 0) ? 0 : 5});
+    long long budget = W * rh * nrows * g.uni(30, 90) / 100, used = 0;
+    int kind = (int)((it / 4) % 5);   // 0 floating groups, 1 no fixed pin at all, 2 stacked twins, 3 all pins of a net on one spot, 4 mixture
+    bool stackAll = g.coin(30);       // every movable cell starts at one and the same position
+    long long sx = x0 + g.uni(0, W), sy = y0 + g.uni(0, nrows * rh);
+    auto addCell = [&](long long w, long long h, int ori, bool fixed) {
+      std::array<long long, 8> c{};
+      if (!fixed && used + w * h > budget && !t.cells.empty()) w = 2;
+      if (!fixed) used += w * h;
+      bool turn = ori == 2 || ori == 3 || ori == 6 || ori == 7;
+      c[2] = turn ? h : w; c[3] = turn ? w : h; c[4] = ori; c[5] = 0; c[6] = fixed; c[7] = fixed ? g.coin(50) : 0;
+      if (!fixed && stackAll) { c[0] = sx; c[1] = sy; }
+      else { c[0] = x0 + g.uni(-rh, W + rh); c[1] = y0 + g.uni(-rh, nrows * rh + rh); }
+      t.cells.push_back(c); return (int)t.cells.size() - 1; };
+    auto centre = [&](int c) { return std::array<long long, 3>{c, t.cells[c][2] / 2, t.cells[c][3] / 2}; };   // centre in the cell's own frame: maps to the placed centre under all 8 orientations
+    auto addNet = [&](std::vector<std::array<long long, 3>> net) { t.nets.push_back(net); t.netw2.push_back(g.coin(75) ? 2 : (int)g.uni(1, 6)); };
+    // fixed pads and ordinary cells
+    std::vector<int> pads, bg;
+    if (kind != 1) { int np = (int)g.uni(1, 4); for (int i = 0; i < np; ++i) pads.push_back(addCell(g.coin(50) ? 0 : 2 * g.uni(1, rh), g.coin(50) ? 0 : rh, 0, true)); }
+    int nbg = kind == 1 ? (g.coin(50) ? 0 : (int)g.uni(1, 8)) : (int)g.uni(0, 14);
+    for (int i = 0; i < nbg; ++i) bg.push_back(addCell(2 * g.uni(1, rh), rh * (g.coin(10) ? 2 : 1), g.coin(70) ? 0 : (int)g.uni(0, 7), false));
+    if (!bg.empty()) {
+      int nn = (int)g.uni(1, 2 * nbg);
+      for (int k = 0; k < nn; ++k) {
+        int d = (int)g.uni(2, 5); std::vector<std::array<long long, 3>> net;
+        for (int j = 0; j < d; ++j) {
+          bool pad = !pads.empty() && g.coin(25); int cc = pad ? pads[g.uni(0, pads.size() - 1)] : bg[g.uni(0, bg.size() - 1)];
+          if (kind == 1 || g.coin(40)) net.push_back(centre(cc)); else net.push_back({cc, g.uni(0, t.cells[cc][2]), g.uni(0, t.cells[cc][3])});
+        }
+        addNet(net);
+      }
+    }
+    // floating groups: cells connected only to each other, pins at the centres (or identical cells with identical pin offsets)
+    auto floating = [&]() {
+      int k = (int)g.uni(3, 7); bool sameOff = g.coin(25); long long w = 2 * g.uni(1, rh), ox = g.uni(0, w), oy = g.uni(0, rh);
+      std::vector<int> grp; for (int i = 0; i < k; ++i) grp.push_back(addCell(sameOff ? w : 2 * g.uni(1, rh), rh, sameOff || g.coin(70) ? 0 : (int)g.uni(0, 7), false));
+      int m = (int)g.uni(1, 4);
+      for (int q = 0; q < m; ++q) {
+        int d = (int)g.uni(q == 0 ? 3 : 2, std::min(k, 6)); std::vector<std::array<long long, 3>> net;
+        int start = (int)g.uni(0, k - 1);
+        for (int j = 0; j < d; ++j) { int cc = grp[(start + j) % k]; if (sameOff) net.push_back({cc, ox, oy}); else net.push_back(centre(cc)); }
+        addNet(net);
+      }
+      return grp; };
+    // stacked twins: identical cells tied by identical two-pin nets to one pad pin, plus nets among themselves
+    auto twins = [&]() {
+      int k = (int)g.uni(2, 5); long long w = 2 * g.uni(1, rh); std::vector<int> grp;
+      long long tx = x0 + g.uni(0, W), ty = y0 + g.uni(0, nrows * rh);
+      for (int i = 0; i < k; ++i) { int c = addCell(w, rh, 0, false); t.cells[c][0] = tx; t.cells[c][1] = ty; grp.push_back(c); }
+      if (!pads.empty()) { int pd = pads[g.uni(0, pads.size() - 1)]; long long pox = g.uni(0, t.cells[pd][2]), poy = g.uni(0, t.cells[pd][3]);
+        for (int c : grp) addNet({{pd, pox, poy}, centre(c)}); }
+      int m = (int)g.uni(1, 3);
+      for (int q = 0; q < m; ++q) { std::vector<std::array<long long, 3>> net; int d = (int)g.uni(2, k + 1); for (int j = 0; j < d; ++j) net.push_back(centre(grp[j % k])); addNet(net); }
+      return grp; };
+    // all pins of a net on one spot: several pins of ONE cell at the same offset (both axes or x only / y only)
+    auto onespot = [&]() {
+      std::vector<int> mv; for (size_t i = 0; i < t.cells.size(); ++i) if (!t.cells[i][6]) mv.push_back((int)i);
+      if (mv.empty()) mv.push_back(addCell(2 * g.uni(1, rh), rh, 0, false));
+      int m = (int)g.uni(1, 3);
+      for (int q = 0; q < m; ++q) {
+        int cc = mv[g.uni(0, mv.size() - 1)]; int d = (int)g.uni(2, 5); int mode = (int)g.uni(0, 2);
+        long long ox = g.uni(0, t.cells[cc][2]), oy = g.uni(0, t.cells[cc][3]); std::vector<std::array<long long, 3>> net;
+        for (int j = 0; j < d; ++j) net.push_back({cc, mode == 2 ? g.uni(0, t.cells[cc][2]) : ox, mode == 1 ? g.uni(0, t.cells[cc][3]) : oy});
+        addNet(net);
+      } };
+    if (kind == 0 || kind == 1 || kind == 4) { int ng = (int)g.uni(1, kind == 1 ? 3 : 2); for (int i = 0; i < ng; ++i) floating(); }
+    if (kind == 2 || kind == 4 || (kind == 1 && g.coin(30))) { int ng = (int)g.uni(1, 2); for (int i = 0; i < ng; ++i) twins(); }
+    if (kind == 3 || kind == 4 || g.coin(15)) onespot();
+    if (kind == 3 && g.coin(50)) floating();
+    // cell indices mixed: rotate the cell list (nets renamed accordingly)
+    int N = (int)t.cells.size(), rot = (int)g.uni(0, N - 1);
+    if (rot) { std::rotate(t.cells.begin(), t.cells.begin() + rot, t.cells.end()); for (auto &net : t.nets) for (auto &pn : net) pn[0] = (pn[0] - rot + N) % N; }
+    printf("GP %s %s %s\n", showRowsCells(t).c_str(), showNets(t).c_str(), drawParams(g, 0, (int)(it % 4)).c_str());
   }
 }
 
@@ -289,7 +393,11 @@ static void runGR(IntReader &r) {
   printf("GL %d %d ", margin, maxSize); printModelCircuit(t); printf(" | "); printLimits(gr); printf(" | %lld\n", gr.totalCapacity());
 }
 
+struct StopRun {};   // thrown from the callback at the first overflowed / non-finite exposed coordinate (a run on NaN may never end)
 struct Recorder {
+  bool stopOnOverflow = false;
+  std::vector<int> lastLB, lastUB;   // circuit coordinates (x y per cell) at the last LowerBound / last UpperBound-or-PenaltyUpdate exposure
+  void snap(std::vector<int> &v) { v.clear(); for (int i = 0; i < c->nbCells(); ++i) { v.push_back(c->cellX_[i]); v.push_back(c->cellY_[i]); } }
   const Circuit *c = nullptr; Rectangle area{0, 0, 0, 0}; int slackX2 = 0, slackY2 = 1;   // tolerated excess in half units
   int ncb = 0, nub = 0, nlb = 0, npu = 0, excPos = 0, excZero = 0; uint64_t hash = 1469598103934665603ULL; std::string viol;
   void mix(long long v) { hash ^= (uint64_t)v; hash *= 1099511628211ULL; }
@@ -304,8 +412,10 @@ struct Recorder {
     ++ncb; mix((int)st);
     for (int i = 0; i < c->nbCells(); ++i) { mix(c->cellX_[i]); mix(c->cellY_[i]); mix((int)c->cellOrientation_[i]); }
     finiteCheck("callback");
-    if (st == PlacementStep::LowerBound) { ++nlb; return; }
+    if (stopOnOverflow && viol.compare(0, 8, "OVERFLOW") == 0) throw StopRun();
+    if (st == PlacementStep::LowerBound) { ++nlb; snap(lastLB); return; }
     if (st == PlacementStep::PenaltyUpdate) ++npu; else if (st == PlacementStep::UpperBound) ++nub; else return;
+    snap(lastUB);
     // an upper-bound placement is exposed: twice the centre of every movable cell against the rows' bounding box
     for (int i = 0; i < c->nbCells(); ++i) {
       if (c->isFixed(i)) continue;
@@ -335,6 +445,10 @@ static ColoquinteParameters readParams(IntReader &r) {
   rl.binSize = r.nx() / 10.0;
   p.global.exportBlending = r.nx() / 100.0;
   p.global.maxNbSteps = (int)r.nx();
+  if (!r.done()) {   // optional knobs (absent in old corpus lines: library defaults)
+    rl.targetBlending = r.nx() / 100.0; rl.quadraticPenalty = r.nx() / 1000.0; rl.coarseningLimit = r.nx() / 10.0;
+    if (!r.done()) p.global.penalty.targetBlending = r.nx() / 100.0;   // replay of hand-written lines only: never generated
+  }
   return p;
 }
 
@@ -354,9 +468,9 @@ static void runGP(IntReader &r) {
   if (narrow || !posCell || cap <= 0 || maxSize < 1) { printf("SKIP outside the domain narrow=%d posCell=%d cap=%lld maxSize=%d\n", (int)narrow, (int)posCell, cap, maxSize); return; }
   (void)rh;
   // (a) the public entry point with a recording callback
-  Circuit ca = orig; Recorder ra; ra.c = &ca; ra.area = ca.computePlacementArea(); ra.slackX2 = margin >= 1 ? 0 : 1;
+  Circuit ca = orig; Recorder ra; ra.c = &ca; ra.area = ca.computePlacementArea(); ra.slackX2 = margin >= 1 ? 0 : 1; ra.stopOnOverflow = true;
   std::string sa = "OK";
-  try { ca.placeGlobal(p, PlacementCallback(std::ref(ra))); } catch (std::exception &e) { sa = std::string("THROW ") + e.what(); }
+  try { ca.placeGlobal(p, PlacementCallback(std::ref(ra))); } catch (std::exception &e) { sa = std::string("THROW ") + e.what(); } catch (StopRun &) { sa = "STOPPED"; }
   if (sa == "OK") ra.finiteCheck("return");
   bool frame = true;   // global export never writes orientation or fixed cells
   for (int i = 0; i < ca.nbCells(); ++i) {
@@ -365,7 +479,12 @@ static void runGP(IntReader &r) {
   }
   printf("GP %s | %d %d %d %d | %s | %d %d %d |", sa.c_str(), ra.ncb, ra.nub, ra.nlb, ra.npu, ra.viol.empty() ? "-" : ra.viol.c_str(), (int)frame, ra.excPos, ra.excZero);
   for (int i = 0; i < ca.nbCells(); ++i) printf(" %d %d", ca.cellX_[i], ca.cellY_[i]);
+  // what was EXPOSED through the callbacks of the public entry point: last lower bound, last upper bound, placed sizes
+  printf(" /"); for (int v : ra.lastLB) printf(" %d", v);
+  printf(" /"); for (int v : ra.lastUB) printf(" %d", v);
+  printf(" /"); for (int i = 0; i < ca.nbCells(); ++i) printf(" %d %d", orig.placedWidth(i), orig.placedHeight(i));
   fflush(stdout);
+  if (sa == "STOPPED") { printf(" | STOPPED\n"); return; }
   // (b) the same steps as GlobalPlacer::place, with access to the private state
   Circuit cb = orig; Recorder rb; rb.c = &cb; rb.area = ra.area; rb.slackX2 = ra.slackX2;
   std::string sb = "OK";
@@ -408,6 +527,7 @@ int main(int argc, char **argv) {
     vh_silence();
     std::string what = argv[2]; SplitMix g(strtoull(argv[3], nullptr, 10)); long long count = atoll(argv[4]);
     if (what == "gp") genGP(g, count, argc > 5 ? atoi(argv[5]) : 0);
+    else if (what == "gpc") genGPC(g, count);
     else if (what == "grid") genGR(g, count);
     else if (what == "spread") genSP(g, count);
     else if (what == "spreadf") genSF(g, count);
